@@ -138,5 +138,16 @@ PROPS['C15'] = {
             '(sampling_function, vectorize, _make_dual_use_func: reflection / exception-driven control flow), meshgrid input, ndim >= 3, outside the hull',
     'technique': 'contract-based deductive verification: symbolic execution of the real interpolation code at a generic evaluation point, z3 / sympy normal form',
 }
+PROPS['C02'] = {
+    'level': 'proof',
+    'text': 'Deductive: _inner_default / _norm_default / _pnorm_* and the constant / array weighting classes are executed for symbolic size (all size / BLAS regimes), '
+            'real and complex dtype and free contiguity flags and proved to return the documented weighted sums (c*SUM(x conj y), SUM(w x conj y), p-norms incl. inf, '
+            'dist = norm of the difference through the real lincomb); both operands raveled in the same order; DiscretizedSpace._inner/_norm/_dist hand boundary-scaled '
+            'arrays (product of the boundary-cell fractions per axis, corners included; exponent 1 resp. p) to the tensor space (ndim 1, 2).',
+    'note': 'trusted: pyvc interpreter, kernel contracts K3-K5 (sums invariant under a common permutation), sums linear / monotone / congruent, reals, positive weights. '
+            'Axioms (symmetry, linearity, Cauchy-Schwarz, triangle inequality) are theorems about the proved closed form, not code obligations. Not under contract: product-space '
+            'weightings, custom inner/norm/dist, ndim >= 3 boundary scaling',
+    'technique': 'contract-based deductive verification: symbolic execution at a generic index with reduction records, closure arrays for the boundary scaling, z3',
+}
 for _k in PROPS:
     NOT_APPLICABLE.pop(_k, None)
